@@ -52,3 +52,6 @@ use time_shim::Duration;
 // deviation surface: more of Option's API with its real meaning
 pub assume_specification<T> [Option::<T>::or] (a: Option<T>, b: Option<T>) -> (r: Option<T>)
     ensures r == (match a { Some(x) => Some(x), None => b });
+broadcast proof fn b_push_as_add(s: Seq<Seq<char>>, x: Seq<char>)
+    ensures #[trigger] s.push(x) == s + seq![x]
+{ assert(s.push(x) =~= s + seq![x]); }
